@@ -55,6 +55,9 @@ def key20(e, A, B, clause):
         return "%s %s: operands of different shape (must answer false)" % (be, op)
     if be == "ndarray" and op == "dot" and A and B and A[2] == 1 and B[2] == 1 and (A[1] >= 2 or B[1] >= 2):
         return "ndarray dot: column-vector operands (Nx1)"
+    if be == "ndarray" and op == "unique" and e.get("anat"):
+        return ("ndarray unique: operand cut out of a larger ndarray buffer (slice_move / slice_axis_inplace / "
+                "remove_index / stepped slice)")
     if be == "nalgebra" and op == "max" and A and all(x < 0 for x in A[3]):
         return "nalgebra max: all entries negative (starts from 0)"
     if be == "nalgebra" and op == "min" and A and all(x > 0 for x in A[3]):
@@ -87,6 +90,17 @@ def deviating(e):
 
 
 def run(ctx):
+    """A run that found violations exits 1 even if a later step of the driver fails."""
+    try:
+        return run_steps(ctx)
+    except vlib.ToolError as err:
+        if not ctx.violations:
+            raise
+        vlib.log("[note] tool error after %d violation(s) were reported (%s): the violations stand" % (len(ctx.violations), err))
+        return ctx.finish(RULE, 0, exhaustive=False)
+
+
+def run_steps(ctx):
     ctx.build()
     # (A) design model of the three storage layouts: the transcribed DenseMatrix methods refine the ADT; the
     #     transcribed ndarray / nalgebra methods do so under the stated layout conditions, and the Witness actions
@@ -107,6 +121,8 @@ def run(ctx):
         e = events[l - 1]
         A, B = ops[l - 1]
         if clause in ("Malformed", "UnknownOp"):
+            if ctx.violations:
+                continue
             raise vlib.ToolError("harness emitted a call the specification cannot interpret: line %d %s %s" % (l, op, clause))
         what = "%s on %s: clause %s" % (op, e["be"], clause)
         if A:
